@@ -2,7 +2,7 @@
 # runs every thorough check one after the other (background use: vp run -- tools/thorough_all.sh)
 cd "$(dirname "$0")/.."
 ./setup.sh >/dev/null 2>&1
-for p in ${*:-C01 C02 C03 C10 C19 C11 C16 C17 C18 C08 C20 C15 C09 C04 C12 C13 C14 C07 C06 C05}; do
+for p in ${*:-C16 C17 C18 C08 C20 C15 C09 C11 C19 C04 C12 C13 C14 C07 C06 C05 C10 C01 C02 C03}; do
   s=$(date +%s); timeout 7200 ./check $p thorough > thorough-$p.log 2>&1; rc=$?; e=$(date +%s)
   echo "$p exit=$rc $((e-s))s $(grep -c '^KNOWN-FINDING' thorough-$p.log) known $(grep -c '^VIOLATION' thorough-$p.log) viol $(grep -c '^INCONCLUSIVE' thorough-$p.log) inconcl"
   grep '^INCONCLUSIVE\|^VIOLATION' thorough-$p.log | cut -c1-200 | sort | uniq -c | head -5
